@@ -298,9 +298,10 @@ func periodGoCode(kind, v int64) int {
 // covers histories of any length and any number of takes.
 //
 // Invariant at the instant c0 of the previous operation, per key:
-//   key effectively present (present and expiry > c0)  <=>  reference window open (active and end > c0);
-//   if so: it has an expiry, expiry == end of the reference window, 1 <= end-c0 <= 2^20,
-//          stored value == number of takes in the window >= 1 (windows with up to 2^40 takes).
+//
+//	key effectively present (present and expiry > c0)  <=>  reference window open (active and end > c0);
+//	if so: it has an expiry, expiry == end of the reference window, 1 <= end-c0 <= 2^20,
+//	       stored value == number of takes in the window >= 1 (windows with up to 2^40 takes).
 func EncodePeriodStep(chunk []Stmt, quotaMax int64) (*Enc, error) {
 	b := NewB()
 	e := &Enc{Name: "period-step", Kind: "period", B: b}
@@ -567,10 +568,11 @@ func EncodeToken(chunk []Stmt, K int, rate, burst, maxRB int64) (*Enc, error) {
 // EncodeTokenStep is the one-step inductive form for the token script.
 //
 // Invariant at the instant c0 (server) / ts (caller) of the previous request:
-//   either the limiter was never used (both keys absent, reference bucket full), or
-//   both keys are present with the same expiry X, 1 <= X-c0, (X-c0)*rate >= burst
-//   (so once they expire the refill alone has filled the bucket),
-//   0 <= tokens <= burst, tokens == reference level, timestamp == reference ts, ts < 2^32.
+//
+//	either the limiter was never used (both keys absent, reference bucket full), or
+//	both keys are present with the same expiry X, 1 <= X-c0, (X-c0)*rate >= burst
+//	(so once they expire the refill alone has filled the bucket),
+//	0 <= tokens <= burst, tokens == reference level, timestamp == reference ts, ts < 2^32.
 func EncodeTokenStep(chunk []Stmt, rate, burst, maxRB int64) (*Enc, error) {
 	b := NewB()
 	e := &Enc{Name: "token-step", Kind: "token", B: b}
